@@ -79,6 +79,9 @@ pub enum Op {
     NewTask { task: Slot, wrap: Wrap, span: Option<Slot> },
     Poll { task: Slot, kind: PollKind, ready: bool },
     DropTask { task: Slot },
+    /// caller-supplied code unwinds out of a tracing call (a name conversion or a property closure
+    /// that panics; the harness catches it): the call must leave the thread's context untouched
+    UserPanic { kind: u8 },
     /// builds an Event value now (its property closure runs now); it is recorded later
     EventNew { ev: Slot, n: u8 },
     /// records a prepared event: on the span in `slot`, or (None) through the local parent
